@@ -254,6 +254,7 @@ type Expect struct {
 	Rows    [][]Cell
 	NCand   int // candidate rows before filtering
 	NFilt   int // decisions taken
+	NRef    int // reference filters evaluated (each must issue one lookup query)
 	// independent of Outcome: the candidate rows that are accepted on their own
 	// (all their filters evaluate, and aggregate to true), in chain order;
 	// Undecided: some row lies outside the reading, Accepted is not complete
@@ -348,6 +349,9 @@ func Expected(c *GCase, blocks []Block) Expect {
 				return
 			}
 			r, ok, err := decide(f, v, c.DB)
+			if f.Active() && v.Kind == "bytes" && f.RefTable != "" && (f.Op == "contains" || f.Op == "!contains") {
+				ex.NRef++ // the lookup is attempted, whether or not the table exists
+			}
 			switch {
 			case err != nil:
 				st, why = "err", err.Error()
@@ -489,6 +493,9 @@ func Judge(ex Expect, obs Obs, sorted bool) (bool, string) {
 	}
 	if obs.Outcome != "ok" {
 		return false, fmt.Sprintf("Insert %s: %s", obs.Outcome, obs.Msg)
+	}
+	if obs.Queries != ex.NRef {
+		return false, fmt.Sprintf("%d lookup queries issued, %d reference filters evaluated", obs.Queries, ex.NRef)
 	}
 	if len(obs.Cols) != len(ex.Cols) {
 		return false, fmt.Sprintf("COPY columns %v, declared %v", obs.Cols, ex.Cols)
